@@ -530,8 +530,12 @@ fn run(run: &mut Run) {
     run.min_nontrivial = 200;
     run.enumerate("relation-table", table_total(), &table_case);
     run.explore("programs", run.tier.pick(250_000, 3_000_000), 400, &program_case);
+    // the same, each case in a thread of its own (per-thread state of the code starts from scratch)
+    run.explore_fresh("programs", run.tier.pick(3_000, 40_000), 400, &program_case);
     run.explore("cyclic", run.tier.pick(40_000, 400_000), 400, &cyclic_case);
     run.explore("arrays", run.tier.pick(200_000, 2_000_000), 200, &array_case);
+    // the same, each case in a thread of its own (per-thread state of the code starts from scratch)
+    run.explore_fresh("arrays", run.tier.pick(3_000, 40_000), 200, &array_case);
 }
 fn case(sub: &str) -> Option<Box<CaseFn<'static>>> {
     match sub {
